@@ -296,7 +296,8 @@ func cmdCheck(args []string) int {
 				ue.uncovered("replay construction failed for " + k.check + ": " + err.Error())
 				continue
 			}
-			res := runReplay(rp)
+			rp.Params = params
+			res := runReplayFull(rp)
 			ev.Replays++
 			switch {
 			case !res.Ran:
